@@ -562,6 +562,7 @@ func (s *State) evalIndexRangeExpression(left object.Object, leftIdx, rightIdx a
 			r = int64(num) + r
 		}
 	}
+	l = max(l, 0) // a start further from the end than the length means from the beginning.
 	if l > r {
 		return s.NewError("range index invalid: left greater then right")
 	}
